@@ -21,6 +21,10 @@ FS_TRUSTED = [
     "translated from the C++ on every run: FilesystemHandlerPrivate::absolutePath and FilesystemHandler::process of filesystemhandler.cpp in the vocabulary of Qhttp/Model/FxPrim.lean (QString paths as UTF-8 bytes, QDir::exists / QFileInfo::isDir as resolution on the model's tree; trusted); bridge theorems QhttpBridge.Fs.* prove that absolutePath says yes exactly when Fs.served yields a location and that process takes the decision of FsHandler.plan (404 / listing / file)",
 ]
 
+AUTH_TRUSTED = [
+    "translated from the C++ on every run: BasicAuthMiddleware::verify and BasicAuthMiddleware::process of basicauthmiddleware.cpp in the vocabulary of Qhttp/Model/AxPrim.lean (a QString is its UTF-8 encoding, QString::fromUtf8(b).toUtf8() is an arbitrary function `round`, QMap::contains/value are the model's last-registration lookup, Parser::split is what QhttpBridge.Parser.split_eq proves of the translated parser, QString::arg replaces every %1; trusted); bridge theorems QhttpBridge.Auth prove that process admits exactly when BasicAuth.verdict does and otherwise sets the WWW-Authenticate challenge with the realm and writes 401, for every table whose entries `round` leaves alone (they were registered as QStrings)",
+]
+
 PARSER_TRUSTED = [
     "translated from the C++ on every run (tools/cxx2lean.py): Parser::split, parseHeaderList, parseHeaders, parseRequestHeaders, parseResponseHeaders of parser.cpp as pure functions (reference parameters returned, `fuel` bounding the loop of split) in the vocabulary Cxx.indexOfFrom / mid / size / count / nth / takeFirst of Qhttp/Model/CxxPrim.lean (trusted); bridge theorems QhttpBridge.Parser prove each equal to the model's function for every input and every fuel above the length of the data (split: non-empty delimiter, maxSplit >= 0 - every call site), and that the vocabulary entry Cxx.parseRequestHeaders used by the translated socket.cpp is the translated parser function (cxx_parseRequestHeaders); a function outside the translated subset is replaced by the model's (listed in QhttpGen.Parser.untranslated) and then rests on the scenario comparison only",
 ]
@@ -57,7 +61,7 @@ PROPS = {
             "trusted": SOCK_TRUSTED + FS_TRUSTED + ["parameters: file contents, MIME names, listing HTML (oracles); modelled: header split at ',', Range string constructor (C16), copier (C14) with the default 64 KiB block"],
             "rule": "files of size 0, 12, 31, 40, 65536, 70000 (across the 64 KiB copy block) x Range headers with bounds around 0, size, 65536, 2^31, malformed / multi-range / other units / case variants, and directory listings; whole response compared"},
     "C09": {"count": {"quick": 4000, "thorough": 100000},
-            "trusted": SOCK_TRUSTED + ["modelled, not verified: QByteArray::fromBase64 (Qt's lenient decoder), QByteArray::split(' '), QMap lookup; credentials are compared as UTF-8 bytes (the harness registers well-formed NUL-free text)"],
+            "trusted": SOCK_TRUSTED + AUTH_TRUSTED + ["modelled, not verified: QByteArray::fromBase64 (Qt's lenient decoder), QByteArray::split(' '), QMap lookup; credentials are compared as UTF-8 bytes (the harness registers well-formed NUL-free text)"],
             "rule": "credential tables of <= 4 users (prefixes / case variants of each other, empty password, ':' in password) x Authorization values: valid, near misses (scheme case, two spaces, tab, trailing space, missing colon, stripped padding, junk inside the token, NUL / BOM / invalid UTF-8 in the payload, other users' passwords), repeated headers, random bytes; through BasicAuthMiddleware attached to a Handler on a Socket over SimTcp"},
     "C10": {"count": {"quick": 600, "thorough": 12000},
             "trusted": SOCK_TRUSTED + ["observed, not proved: heap behaviour (ASan/UBSan verdict of every run), live QObject accounting through Qt's qtHookData table, descriptor counts from /proc/self/fd",
@@ -159,6 +163,7 @@ PARSER_ALL = ["QhttpBridge.Parser"]
 FS_ALL = ["QhttpBridge.Fs.AbsolutePath", "QhttpBridge.Fs.Process"]
 
 BRIDGE_NEEDS = {
+    "QhttpBridge.Auth": ["BasicAuthMiddleware::verify", "BasicAuthMiddleware::process"],
     "QhttpBridge.Fs.AbsolutePath": ["FilesystemHandlerPrivate::absolutePath"],
     "QhttpBridge.Fs.Process": ["FilesystemHandler::process", "FilesystemHandlerPrivate::absolutePath"],
     "QhttpBridge.Sock.SetStatusCode": ["Socket::setStatusCode"], "QhttpBridge.Sock.SetHeader": ["Socket::setHeader"],
@@ -207,5 +212,6 @@ BRIDGES = {
     "C14": ["QhttpBridge.Copier"],
     "C08": ["QhttpBridge.Copier"] + RANGE_ALL + FS_ALL,
     "C07": FS_ALL,
+    "C09": ["QhttpBridge.Auth"],
 }
 ALL_BRIDGE_MODULES = sorted({m for v in BRIDGES.values() for m in v})
